@@ -651,3 +651,120 @@ func (c *Ctx) r0115(pk *packages.Package) {
 	}
 	c.R.Floor(rule, "member-suffix clauses", n, 4)
 }
+
+// R01.16: the `in` exclusion of a for-init is only lifted inside brackets.
+func (c *Ctx) r0116(pk *packages.Package) {
+	const rule = "R01.16"
+	c.R.Rule(rule, "inside the init of a `for` statement an `in` operator must be parenthesised; the printer tracks this in m.inFor and a printer function may clear the flag (after saving it) for what it prints inside brackets, where the grammar allows `in` again. For every saved-and-cleared region (`p := m.inFor; m.inFor = false; …; m.inFor = p`) of package js: each direct call of jsMinifier.minifyExpr reachable from the clear before the restore is preceded, on every path from the clear, by a write of a constant that ends in an opening bracket `(` `[` `{` (template literal text, which ends in `${`, counts). Clearing the flag around a bare sub-expression — the branches of `?:`, the expression body of an arrow function — prints `for(var r=a?c:\"k\"in o;…)`, a syntax error")
+	info := pk.TypesInfo
+	minExpr := load.Mod + "/js.(jsMinifier).minifyExpr"
+	isFlag := func(e ast.Expr) bool {
+		typ, f := fieldOf(info, e)
+		return f == "inFor" && strings.HasSuffix(typ, "jsMinifier")
+	}
+	regions, calls := 0, 0
+	for _, fd := range load.FuncDecls(pk) {
+		if fd.Body == nil {
+			continue
+		}
+		g := c.graph(pk, fd)
+		fname := load.FuncName(fd)
+		// saves: p := m.inFor (possibly in a tuple)
+		saved := map[types.Object]bool{}
+		for _, y := range g.Nodes {
+			if as, ok := y.Stmt.(*ast.AssignStmt); ok && y.Kind == flow.KStmt && as.Tok == token.DEFINE && len(as.Lhs) == len(as.Rhs) {
+				for i, r := range as.Rhs {
+					if isFlag(r) {
+						if id, isId := as.Lhs[i].(*ast.Ident); isId {
+							saved[info.Defs[id]] = true
+						}
+					}
+				}
+			}
+		}
+		if len(saved) == 0 {
+			continue
+		}
+		assignsFlag := func(y *flow.Node) (ast.Expr, bool) { return assignsTo(y, isFlag) }
+		opens := func(y *flow.Node) bool {
+			a := y.Ast()
+			if a == nil || y.Kind != flow.KStmt {
+				return false
+			}
+			hit := false
+			flowInspectCalls(a, func(call *ast.CallExpr) {
+				if calleeName(info, call) != jsWrite || len(call.Args) != 1 {
+					return
+				}
+				if v, err := c.Ev.Expr(pk, call.Args[0]); err == nil {
+					if b, isB := v.([]byte); isB && len(b) > 0 {
+						switch b[len(b)-1] {
+						case '(', '[', '{':
+							hit = true
+						}
+					}
+					return
+				}
+				// template text: item.Value of a template literal part ends in `${`
+				if strings.Contains(str(call.Args[0]), ".Value") && c.caseLabel(call) == "case *js.TemplateExpr" {
+					hit = true
+				}
+			})
+			return hit
+		}
+		k := 0
+		for _, y := range g.Nodes {
+			rhs, ok := assignsFlag(y)
+			if !ok || str(rhs) != "false" {
+				continue
+			}
+			// a clear of a saved flag: some save dominates it
+			isRegion := false
+			for _, z := range g.Nodes {
+				if as, ok := z.Stmt.(*ast.AssignStmt); ok && z.Kind == flow.KStmt && as.Tok == token.DEFINE && g.Dominates(z, y) {
+					for i, r := range as.Rhs {
+						if i < len(as.Lhs) && isFlag(r) {
+							isRegion = true
+						}
+					}
+				}
+			}
+			if !isRegion {
+				continue
+			}
+			regions++
+			k++
+			var bad []string
+			for _, z := range g.Nodes {
+				a := z.Ast()
+				if a == nil || z.Kind != flow.KStmt || z == y {
+					continue
+				}
+				direct := false
+				flowInspectCalls(a, func(call *ast.CallExpr) {
+					if calleeName(info, call) == minExpr {
+						direct = true
+					}
+				})
+				if !direct {
+					continue
+				}
+				p := g.Path(flow.Search{From: []*flow.Node{y}, Goal: func(q *flow.Node) bool { return q == z }, Avoid: func(q *flow.Node) bool {
+					if q == z {
+						return false
+					}
+					if _, isAs := assignsFlag(q); isAs {
+						return true // restore (or another assignment) ends the region
+					}
+					return opens(q)
+				}})
+				if p != nil {
+					calls++
+					bad = append(bad, str0(a)+" at "+c.pos(a))
+				}
+			}
+			c.R.Check(len(bad) == 0, rule, fmt.Sprintf("js.%s/cleared region #%d", fname, k), c.pos(y.Stmt), "every expression printed in the region follows an opening bracket", "m.inFor is cleared and an expression is printed without an opening bracket in between ("+strings.Join(bad, "; ")+"): an `in` operator in that expression loses the parentheses it needs inside a for-init")
+		}
+	}
+	c.R.Floor(rule, "saved-and-cleared regions of inFor", regions, 8)
+}
